@@ -56,14 +56,14 @@ theorem sim_setCoordFromAF (o : Ops V) (c name : String) :
 macro_rules | `(tactic| sim_leaf) => `(tactic| exact sim_setCoordFromAF _ _ _)
 
 theorem sim_dist2D (o : Ops V) (i j : Nat) :
-    Sim n (fun _ => True) (dist2D (σ := St V) o i j) (dist2D (σ := ATab V) o i j) := by
-  unfold dist2D
+    Sim n (fun _ => True) (dist2DOp (σ := St V) o i j) (dist2DOp (σ := ATab V) o i j) := by
+  unfold dist2DOp
   sim_auto
 macro_rules | `(tactic| sim_leaf) => `(tactic| exact sim_dist2D _ _ _)
 
 theorem sim_speedBetween (o : Ops V) (i j : Nat) :
-    Sim n (fun _ => True) (speedBetween (σ := St V) o i j) (speedBetween (σ := ATab V) o i j) := by
-  unfold speedBetween
+    Sim n (fun _ => True) (speedBetweenOp (σ := St V) o i j) (speedBetweenOp (σ := ATab V) o i j) := by
+  unfold speedBetweenOp
   sim_auto
 macro_rules | `(tactic| sim_leaf) => `(tactic| exact sim_speedBetween _ _ _)
 
